@@ -78,6 +78,17 @@ func init() {
 			return err == nil, fmt.Sprint(err)
 		})
 	}
+	probes["O85"] = func() (bool, string) {
+		return guard(func() (bool, string) {
+			c, _ := ucfg.NewFrom(map[string]interface{}{"b": 1})
+			var to struct {
+				A initArr
+				B int
+			}
+			err := c.Unpack(&to)
+			return err != nil || to.A != initArr{7, 8}, fmt.Sprint(err, " ", to.A)
+		})
+	}
 	probes["O84"] = func() (bool, string) {
 		return guard(func() (bool, string) {
 			type Base struct{ A int }
@@ -450,6 +461,10 @@ func probeO22() (bool, string) {
 		return err != nil || t.L != "info", fmt.Sprint(err, t)
 	})
 }
+
+type initArr [2]int
+
+func (a *initArr) InitDefaults() { a[0], a[1] = 7, 8 }
 
 type primUnpacker int
 
